@@ -353,9 +353,23 @@ def r_grade_solvers(rep, f):
             else:
                 why = g.issues[-1][1] if g.issues else grade.fmt(gd)
                 rep.violation("R-GRADE-SCALE", key, "the tolerance scale `%s` is not homogeneous of degree 1 in the state (atol + rtol*|y|): %s" % (sig[:120], why), d["node"].get("sp") if d.get("node") else None)
+        def alternatives(p, depth=0):
+            """a value that is a join (`if tol == 0.0 { EPSILON } else { tol }`) stands for each of its alternatives"""
+            a_ = p.single_atom() if isinstance(p, Poly) else None
+            d_ = DEFS.get(a_) if a_ else None
+            if d_ and d_[0] == "phi" and depth < 3:
+                for x_ in d_[1]:
+                    if isinstance(x_, Poly):
+                        yield from alternatives(x_, depth + 1)
+            elif isinstance(p, Poly):
+                yield p
+        stores = []
         for ev in sx.trace:
             if ev["kind"] == "store" and isinstance(ev["value"], Poly):
-                den = ev["value"]
+                for alt in alternatives(ev["value"]):
+                    stores.append((ev, alt))
+        for ev, den in stores:
+            if True:
                 at = den.atoms()
                 if any(a.startswith("atol") for a in at) and any(a.startswith("rtol") for a in at):
                     sig = repr(den)[:200]
@@ -885,7 +899,7 @@ def r_parity(rep, f):
                 nd = ev["node"]
                 if id(nd) in seen_c and not tag.startswith("after-reject"):
                     pass
-                if hk.main_loop is None or not tast.contains(hk.main_loop, lambda z: z is nd):
+                if hk.main_loop is None or not tast.within(hk.main_loop, nd):
                     continue
                 for op_, l_, r_ in cond_parts(ev["cond"]):
                     d_ = l_ - r_
